@@ -1,5 +1,6 @@
 SPECIFICATION SSpec
 INVARIANT InstancesInRange
+INVARIANT OpenEndsAreTheDataYear
 INVARIANT CountIsKept
 INVARIANT NeverDropPlausible
 INVARIANT WeekdayOfJan1
